@@ -498,3 +498,65 @@ func (p *Prog) funcCallsDeep(fi *FuncInfo, pred callPred) bool {
 	}
 	return walk(fi.Pkg, b, 3)
 }
+
+// returnedFunc resolves the function a function returns (its single return of a function value): a literal
+// (pseudo entry of fi), or a method value / function of the module. pos is the syntax to report at.
+func (p *Prog) returnedFunc(fi *FuncInfo) (*FuncInfo, ast.Node) {
+	all := p.returnedFuncs(fi)
+	if len(all) == 0 {
+		return nil, nil
+	}
+	last := all[len(all)-1]
+	return last.FI, last.Pos
+}
+
+// returnedFn is one function value a function returns; Value is the returned expression (for a method value
+// its receiver expression is Value.(*ast.SelectorExpr).X).
+type returnedFn struct {
+	FI    *FuncInfo
+	Pos   ast.Node
+	Value ast.Expr
+}
+
+func (p *Prog) returnedFuncs(fi *FuncInfo) []returnedFn {
+	var out []returnedFn
+	info := fi.Pkg.TypesInfo
+	var res *FuncInfo
+	var pos ast.Node
+	n := 0
+	walkNoLit(fi.Decl.Body, func(x ast.Node) bool {
+		rs, ok := x.(*ast.ReturnStmt)
+		if !ok || len(rs.Results) != 1 {
+			return true
+		}
+		if tv, ok := info.Types[rs.Results[0]]; !ok || tv.Type == nil {
+			return true
+		} else if _, isSig := tv.Type.Underlying().(*types.Signature); !isSig {
+			return true
+		}
+		switch v := ast.Unparen(rs.Results[0]).(type) {
+		case *ast.FuncLit:
+			n++
+			res, pos = fi.LitInfo(v, n), v
+			out = append(out, returnedFn{res, pos, v})
+		case *ast.SelectorExpr:
+			if fn, ok := info.Uses[v.Sel].(*types.Func); ok {
+				if cfi := p.Funcs[fkey(fn.Origin())]; cfi != nil && cfi.Decl.Body != nil {
+					n++
+					res, pos = cfi, cfi.Decl
+					out = append(out, returnedFn{res, pos, v})
+				}
+			}
+		case *ast.Ident:
+			if fn, ok := info.Uses[v].(*types.Func); ok {
+				if cfi := p.Funcs[fkey(fn.Origin())]; cfi != nil && cfi.Decl.Body != nil {
+					n++
+					res, pos = cfi, cfi.Decl
+					out = append(out, returnedFn{res, pos, v})
+				}
+			}
+		}
+		return true
+	})
+	return out
+}
